@@ -91,7 +91,7 @@ func SeedKey(name string) []byte { s := sha256.Sum256([]byte(name)); return s[:]
 
 var (
 	Keystore *StaticKeystore
-	IDs      []*idp.Identity // userA, userB, userC, userD
+	IDs      []*idp.Identity // userA, userB, userC, userD, then the same four on a second device (same id, other public key)
 	Names    = []string{"userA", "userB", "userC", "userD"}
 )
 
@@ -117,6 +117,25 @@ func Init() {
 	Keystore = ks
 	for _, n := range Names {
 		id, err := idp.CreateIdentity(Ctx, &idp.CreateIdentityOptions{Keystore: ks, ID: n, Type: "orbitdb"})
+		if err != nil {
+			panic(err)
+		}
+		IDs = append(IDs, id)
+	}
+	// the same users on a second device: the same root key (hence the same identity id) in another keystore, which
+	// holds its own signing key (hence another public key). IDs[4+i] is user i's second-device identity.
+	ks2 := &StaticKeystore{keys: map[string]crypto.PrivKey{}}
+	for _, n := range Names {
+		ks2.keys[n] = ks.keys[n]
+		raw, _ := ks.keys[n].GetPublic().Raw()
+		k2, err := crypto.UnmarshalSecp256k1PrivateKey(SeedKey("signing-on-second-device/" + n))
+		if err != nil {
+			panic(err)
+		}
+		ks2.keys[hex.EncodeToString(raw)] = &memoKey{PrivKey: k2, sigs: map[string][]byte{}}
+	}
+	for _, n := range Names {
+		id, err := idp.CreateIdentity(Ctx, &idp.CreateIdentityOptions{Keystore: ks2, ID: n, Type: "orbitdb"})
 		if err != nil {
 			panic(err)
 		}
